@@ -356,24 +356,24 @@ def check_predictor(ctx, cfg, p, X, xq, st, info=None):
         st.big_done.add(cname)
         try:
             kq = xq.shape[0]
-            nbig = 2500
+            nbig = 5000
             idx = np.random.default_rng(4321).integers(0, kq, size=nbig)
             g_big = meth("gradient", xq[idx], True)
             st.evals += 1
-            for i in list(range(0, 6)) + list(range(1020, 1030)) + list(range(2040, 2056)) + list(range(nbig - 12, nbig)):
+            for i in list(range(0, 6)) + list(range(1020, 1030)) + list(range(2040, 2056)) + list(range(4090, 4102)) + list(range(nbig - 12, nbig)):
                 r = int(idx[i])
                 gr = results[("many", True)][0][r]
                 eg = float(np.abs(g_big[i] - gr).max())
-                st.ratio("row-agreement-2500", eg / refs[r]["round"][0], keyb)
+                st.ratio("row-agreement-5000", eg / refs[r]["round"][0], keyb)
                 if not eg <= refs[r]["round"][0]:
-                    bad("row-agreement|2500-rows", "row i of gradient evaluated among 2500 rows differs from the same row evaluated in a small batch",
-                        {"row": i, "rows": "x[default_rng(4321).integers(0, len(x), 2500)]", "x": xq[r].tolist(), "gradient_difference": eg,
+                    bad("row-agreement|5000-rows", "row i of gradient evaluated among 5000 rows differs from the same row evaluated in a small batch",
+                        {"row": i, "rows": "x[default_rng(4321).integers(0, len(x), 5000)]", "x": xq[r].tolist(), "gradient_difference": eg,
                          "allowed_error": refs[r]["round"][0]})
                     break
         except KeyError:
             pass
         except Exception as e:  # noqa
-            bad("row-agreement|2500-rows|%s" % type(e).__name__, "gradient raises on 2500 rows", {"exception": "%s: %s" % (type(e).__name__, str(e)[:300])})
+            bad("row-agreement|5000-rows|%s" % type(e).__name__, "gradient raises on 5000 rows", {"exception": "%s: %s" % (type(e).__name__, str(e)[:300])})
     # ---- history: multi_time with the states passed by keyword and jit=True, twice on the same predictor with different states:
     #      the second answer is about the second states (agreement with jit=False, which is checked against finite differences above)
     if is_time and not isinstance(p, MultiOutputColumn):
